@@ -237,7 +237,10 @@ func (a *c14Alpha) run(path []int, check bool) (string, []string) {
 	// Version / Requirements for every alphabet key and a never-added key
 	probeKeys := append(append([]resolve.VersionKey(nil), a.keys...),
 		resolve.VersionKey{PackageKey: a.keys[0].PackageKey, VersionType: resolve.Concrete, Version: "9.9.9"},
-		resolve.VersionKey{PackageKey: resolve.PackageKey{System: a.sys, Name: "never"}, VersionType: resolve.Concrete, Version: a.keys[0].Version})
+		resolve.VersionKey{PackageKey: resolve.PackageKey{System: a.sys, Name: "never"}, VersionType: resolve.Concrete, Version: a.keys[0].Version},
+		// the text of an addable key under another version type: a key of its own, never added
+		resolve.VersionKey{PackageKey: a.keys[0].PackageKey, VersionType: resolve.Requirement, Version: a.keys[0].Version},
+		resolve.VersionKey{PackageKey: a.keys[len(a.keys)-1].PackageKey, VersionType: resolve.Requirement, Version: a.keys[len(a.keys)-1].Version})
 	for _, vk := range probeKeys {
 		v, err := lc.Version(ctx, vk)
 		op, added := m.entry[vk]
@@ -379,6 +382,38 @@ func (a *c14Alpha) run(path []int, check bool) (string, []string) {
 
 var c14Systems = []resolve.System{resolve.NPM, resolve.Maven, resolve.PyPI}
 
+// c14Names lists the alphabets: one per system, and a second npm one whose package has only prereleases and a
+// version string that is not a semver at all (npm allows any string): whether "releases exist" for the place of the
+// latest-tagged prerelease then hinges on how the unparsable version is counted.
+var c14Names = []string{"NPM", "Maven", "PyPI", "NPM-pre"}
+
+func c14AlphabetNamed(name string, quick bool) *c14Alpha {
+	for _, s := range c14Systems {
+		if a := c14Alphabet(s, quick); a.name == name {
+			return a
+		}
+	}
+	if name != "NPM-pre" {
+		return nil
+	}
+	a := &c14Alpha{sys: resolve.NPM, name: name}
+	a.match = map[string]map[string]bool{
+		">=1.0.0-0": {"1.0.0-a": true, "1.0.0-b": true},
+		"*":         {},
+	}
+	a.attrs = []string{"", "latest"}
+	a.reqs = [][]c14Req{nil}
+	for _, v := range []string{"1.0.0-a", "1.0.0-b", "nightly"} { // ascending: semvers first, then other strings as text
+		a.keys = append(a.keys, resolve.VersionKey{PackageKey: resolve.PackageKey{System: resolve.NPM, Name: "a"}, VersionType: resolve.Concrete, Version: v})
+	}
+	for k := range a.keys {
+		for _, at := range a.attrs {
+			a.ops = append(a.ops, c14Op{k, at, 0})
+		}
+	}
+	return a
+}
+
 // C14 decides the LocalClient property by BFS to closure.
 func C14(tier string) {
 	run := core.NewRun("C14", tier, c14Replay)
@@ -391,8 +426,8 @@ func C14(tier string) {
 	run.Cov["rule"] = "per system: breadth-first search to closure over LocalClient states (state key = exact stored order and attributes of every package list + requirements of every key); transitions = AddVersion(key, attr, deps) for every operation of the alphabet applied to every reachable state; in every state Version/Versions/Requirements/MatchingVersions for every key/package/requirement of the alphabet and never-added ones are compared with a map model"
 	var states, transitions int64
 	perSys := map[string]any{}
-	for _, sys := range c14Systems {
-		a := c14Alphabet(sys, quick)
+	for _, an := range c14Names {
+		a := c14AlphabetNamed(an, quick)
 		res := bfs.Search(bfs.Spec{
 			NumOps: len(a.ops),
 			Run: func(path []int, check bool) string {
@@ -457,14 +492,11 @@ func c14Replay(w string) (bool, string) {
 	if p[0] != "hist" {
 		return true, "unknown"
 	}
-	var sys resolve.System
-	for _, s := range c14Systems {
-		if c14Alphabet(s, true).name == p[1] {
-			sys = s
-		}
-	}
 	quick, _ := strconv.ParseBool(p[2])
-	a := c14Alphabet(sys, quick)
+	a := c14AlphabetNamed(p[1], quick)
+	if a == nil {
+		return true, "unknown alphabet"
+	}
 	var path []int
 	for _, s := range p[4:] {
 		x, err := strconv.Atoi(s)
